@@ -404,6 +404,27 @@ def check_ops_in(run):
                 kind, desc = "in-check-raises-abort", "check_that_in raised AbortTest"
             elif not oks or oks[-1] or not all(oks[:-1]):
                 kind, desc = "in-abort-without-failed-check", "%s raised AbortTest, recorded %r" % (c["op"], oks)
+        # every verdict returned by check_that_in is the match result of has_entry(base_key + key path, matcher) on the actual
+        # value, computed here with the real matcher and without operations.py
+        if kind is None and c["op"] == "check_that_in" and o["outcome"][0] == "ret" and c["args"][0] in ("single", "pairs"):
+            import lemoncheesecake.matching as M
+            base = c["base"]
+            basepath = () if base is None else (tuple(base) if isinstance(base, (list, tuple)) else (base,))
+            pairs = [((), c["args"][1])] if c["args"][0] == "single" else [
+                ((tuple(k) if isinstance(k, list) else (k,)), x) for k, x in c["args"][1]]
+            want = []
+            try:
+                for kp, x in pairs:
+                    ys, bad = leaves_of(x, basepath + kp)
+                    for path, expr in ys:
+                        want.append(bool(M.has_entry(list(path), G.build(expr)).matches(c["actual"])))
+                    if bad:
+                        break
+            except Exception:
+                want = None
+            if want is not None and want != o["outcome"][1]:
+                kind, desc = "in-verdict-is-not-the-match-result", "check_that_in returned %r, has_entry(path, matcher) gives %r" % (
+                    o["outcome"][1], want)
         if kind:
             run.violation("oracle:" + kind, desc, {"kind": "in-operation", "op": c["op"], "actual": c["actual"], "args": repr(c["args"]),
                                                   "base": repr(c["base"]), "quiet": c["quiet"], "observed": o})
